@@ -43,7 +43,8 @@ WHERES = [('none', ''), ('left', 't1.a = 1'), ('right', 't2.b = 1'), ('both', 't
           ('right_like', "t2.y LIKE 'a%'"), ('right_not_in', 't2.b NOT IN (1)'), ('not_right_isnull', 'NOT t2.b IS NULL'), ('right_between', 't2.b BETWEEN 1 AND 2'),
           ('or_same_side', 't2.b = 1 OR t2.b = 2'), ('paren_right', '(t2.b = 1)'), ('arith_right', 't2.b + 1 = 2')]
 TARGETS = [('cols', COLS), ('star', '*'), ('count', 'count(*) AS n'), ('expr', 't1.id, t1.a, t2.id AS id2, t2.b, t1.a + t2.b AS k'),
-           ('left_only', 't1.id, t1.a'), ('right_only', 't2.id AS id2, t2.b'), ('agg', 'sum(t1.x) AS s, max(t2.y) AS m'), ('distinct', 'DISTINCT t1.a, t2.b')]
+           ('left_only', 't1.id, t1.a'), ('right_only', 't2.id AS id2, t2.b'), ('agg', 'sum(t1.x) AS s, max(t2.y) AS m'), ('distinct', 'DISTINCT t1.a, t2.b'),
+           ('distinct_star', 'DISTINCT *'), ('distinct_cols', 'DISTINCT t1.id, t1.a, t2.id AS id2, t2.b')]
 GROUPS = [('none', ''), ('left', 'GROUP BY t1.a'), ('right', 'GROUP BY t2.b'), ('having', 'GROUP BY t1.a HAVING count(*) > 1')]
 ORDERS = [('none', []), ('left', [(0, False)]), ('right', [(2, False)]), ('left_desc', [(0, True)]), ('two', [(1, False), (3, False)]),
           ('right_left', [(3, True), (0, False)])]
@@ -105,7 +106,7 @@ def build(a):
         targets = f'{gcol} AS g, count(*) AS n'
         names = ['g', 'n']
         ospec = [(0, d) for (p, d) in ospec[:1]]
-    elif tl == 'star':
+    elif tl in ('star', 'distinct_star'):
         names = ['id', 'a', 'x', 'id2', 'b', 'y']
         ospec = [({0: 0, 1: 1, 2: 3, 3: 4}[p], d) for p, d in ospec]
     elif tl in ('count', 'agg'):
